@@ -48,6 +48,12 @@ func effFB(s *NodeSpec) bool {
 }
 
 func scriptOf(s *NodeSpec, v int) Visit {
+	if s.LoopN > 0 {
+		if v < s.LoopN {
+			return Visit{FirstOK: 1, Post: "loop"}
+		}
+		return Visit{FirstOK: 1, Post: "exit"}
+	}
 	if v < len(s.Visits) {
 		return s.Visits[v]
 	}
@@ -165,7 +171,7 @@ func (m *Model) flow(id int, f *FlowSpec, r *ModelRun) (string, string) {
 	cur := f.Start
 	last := ""
 	for cur >= 0 {
-		if m.steps > 20000 {
+		if m.steps > 400000 {
 			r.Trunc = true
 			return "", ""
 		}
